@@ -89,6 +89,55 @@ theorem gen_displacementCall_eq_model (n0 n1 : Nat) (c0 c1 : Cell K) (ref : BoxR
 theorem gen_ddvector_eq_model (c0 c1 : Cell K) (pos0 pos1 : Nat → V3 K) (i j : Nat) :
     Gen.ddvector c0 c1 pos0 pos1 i j = ddvector c0 c1 pos0 pos1 i j := rfl
 
+/-! ### DifferentialDisplacement.solve: the argument handling as executed from the source (second pass) -/
+/-- what `DObj.solve` does once the argument handling has produced the stored state and the list, or the refusal: all
+    lists empty → the `ValueError` of `np.concatenate`, else the vectors of the systems now stored. -/
+def DObj.finish (o : DObj K) (r : (Sys K × Sys K × Nat × Option (List (List Nat))) × Except DErr (List (List Nat))) :
+    DObj K × Option DErr :=
+  let o' : DObj K := { o with sys0 := r.1.1, sys1 := r.1.2.1, reference := r.1.2.2.1, nlist := r.1.2.2.2 }
+  match r.2 with
+  | .error e => (o', some e)
+  | .ok nl =>
+    if nl.all (·.isEmpty) then (o', some .value)
+    else ({ o' with dd := some (ddvectors r.1.1.cell r.1.2.1.cell r.1.1.pos r.1.2.1.pos nl) }, none)
+
+/-- `DObj.solve` IS the statement sequence of `DifferentialDisplacement.solve` before its loop (systems stored first, the
+    atom-count assertion, `reference` through its setter, the reference system, the list: given > cutoff list of the
+    reference system > stored > ValueError; what is stored at the moment of each refusal), followed by `finish`. -/
+theorem gen_ddSolveArgs_eq_model (o : DObj K) (a : DArgs K) :
+    DObj.solve o a = DObj.finish o
+      (Gen.ddSolveArgs Sys.n o.sys0 o.sys1 o.reference o.nlist a.sys0 a.sys1 a.neighbors a.cutoff a.reference) := by
+  rcases o with ⟨o0, o1, oref, onl, odd⟩
+  rcases a with ⟨a0, a1, anb, acut, aref⟩
+  unfold DObj.solve Gen.ddSolveArgs DObj.finish
+  cases a0 <;> cases a1 <;> simp only [Option.getD_none, Option.getD_some, ne_eq] <;>
+    (split
+     · simp_all
+     · rcases aref with _ | r
+       · cases anb <;> cases acut <;> cases onl <;> simp_all
+       · by_cases hr : r = 0 ∨ r = 1
+         · cases anb <;> cases acut <;> cases onl <;> simp_all
+         · simp_all)
+/-- the constructor solves exactly when a list or a cutoff is given (the test of `DObj.init`). -/
+theorem gen_ddInitSolves_eq_model {L C : Type} (nb : Option L) (cu : Option C) :
+    Gen.ddInitSolves nb cu = (nb.isSome || cu.isSome) := rfl
+
+/-! ### set_p_vectors / nye_tensor: the broadcasting chain and the axes step; disregistry: its inputs (second pass) -/
+/-- both copies of the chain test `len == 1` first, then `len != natoms`, and broadcast what the model says. -/
+theorem gen_dispatchKind_eq_model (len natoms : Nat) :
+    Gen.dispatchKind_setP len natoms = dispatchKind len natoms ∧ Gen.dispatchKind_nyeTensor len natoms = dispatchKind len natoms :=
+  ⟨rfl, rfl⟩
+/-- `np.inner(p_vectors, axes_check(axes))` maps every vector `p` to `T p` (`transformP`), in both functions. -/
+theorem gen_axesStep_eq_model (T : M3 K) (ps : List (V3 K)) :
+    ps.map (Gen.axesStep_setP T) = transformP T ps ∧ ps.map (Gen.axesStep_nyeTensor T) = transformP T ps := ⟨rfl, rfl⟩
+/-- `disregistry`: displacement of (base, disl) under the default reference, `allx = basepos·m`, `ally = basepos·n`,
+    `midy = planepos·n`. -/
+theorem gen_disregistryInputs_eq_model (n0 n1 : Nat) (c0 c1 : Cell K) (pos0 pos1 : Nat → V3 K) (m n planepos : V3 K) :
+    Gen.disregistryInputs n0 n1 c0 c1 pos0 pos1 m n planepos = disregistryInputs n0 n1 c0 c1 pos0 pos1 m n planepos := by
+  unfold Gen.disregistryInputs disregistryInputs
+  rw [gen_displacementCall_eq_model]
+  cases displacementCall n0 n1 c0 c1 BoxRef.final pos0 pos1 <;> rfl
+
 /-! ### the Strain object: getters, clear_properties -/
 /-- every getter fills its attribute from the property the model's `SObj.read` takes it from. -/
 theorem gen_getters_eq_model : Gen.getters =
